@@ -29,10 +29,28 @@ def histories(starts, sigma, depth):
     return _hist_cache[key]
 
 
-def levels(tier, plan):
-    """plan: list of (level-name, starts, sigma, depth, lattice-name). Returns [(level, [cases])]."""
+def fork_histories(starts, firsts, mids, lasts):
+    """histories first > mid > last (mid = tap / branch): intermediate tensors with several consumers or that are also outputs."""
     out = []
-    for name, starts, sigma, depth, lat in plan:
+    for st in starts:
+        for a in firsts:
+            for m in mids:
+                for b in lasts:
+                    h = dict(start=(list(st[0]), st[1]), steps=[a, m, b])
+                    if nets.build(h, 0) is not None:
+                        out.append(h)
+    return out
+
+
+def levels(tier, plan):
+    """plan: list of (level-name, starts, sigma, depth, lattice-name) or (level-name, histories-list, lattice-name)."""
+    out = []
+    for entry in plan:
+        if len(entry) == 3:
+            name, hs, lat = entry
+            out.append((name, [dict(h=h, cfg=c) for h in hs for c in C.lattice(lat)]))
+            continue
+        name, starts, sigma, depth, lat = entry
         hs = histories(starts, sigma, depth)
         cfgs = C.lattice(lat)
         out.append((name, [dict(h=h, cfg=c) for h in hs for c in cfgs]))
@@ -40,12 +58,15 @@ def levels(tier, plan):
 
 
 def default_plan(tier, scale=1.0):
+    mids = ["tap", "branch_cpu", "branch_npu"]
     if tier == "quick":
         return [("G1xC8", nets.STARTS_Q, nets.SIGMA_Q, 1, "c8"),
-                ("G2xC1", nets.STARTS_Q[:2], nets.SIGMA_Q, 2, "c2")]
+                ("G2xC1", nets.STARTS_Q[:2], nets.SIGMA_Q, 2, "c2"),
+                ("fork3xC2", fork_histories(nets.STARTS_Q[:2], nets.SIGMA_C + ["cpu_neg"], mids, nets.SIGMA_C + ["cpu_neg"]), "c2")]
     return [("G1xC24", nets.STARTS_T, nets.SIGMA_T, 1, "c24"),
             ("G2xC8", nets.STARTS_Q, nets.SIGMA_Q, 2, "c8"),
-            ("chain3xC4", nets.STARTS_Q[:2], nets.SIGMA_C, 3, "c4")]
+            ("chain3xC4", nets.STARTS_Q[:2], nets.SIGMA_C, 3, "c4"),
+            ("fork3xC8", fork_histories(nets.STARTS_Q, nets.SIGMA_C + ["cpu_neg", "concat", "split"], mids, nets.SIGMA_C + ["cpu_neg", "concat", "reshape"]), "c8")]
 
 
 _child_fn = None
